@@ -6,7 +6,9 @@ package main
 //
 // Trace lines (replayed by lean/AtreeModel/Replay/Codec.lean):
 //
-//	ENC <dump> <hex> size=<n>      an in-memory slab: VerifDumpSlab, EncodeSlab, ByteSize
+//	ENC <hex> size=<n> | <dump> [| <dump of the decoded register>]
+//	                               an in-memory slab: EncodeSlab, ByteSize, VerifDumpSlab; the third part is
+//	                               present when DecodeSlab(EncodeSlab(s)) does not dump like s (compact maps)
 //	DEC <hex> id=<addr>.<idx>      bytes handed to DecodeSlab under this slab ID, followed by
 //	OBS ok:<dump> size=<n> | OBS err | OBS PANIC
 //	HDR <hex>                      bytes handed to IsRootOfAnObject / HasPointers / HasSizeLimit, followed by
@@ -15,13 +17,11 @@ package main
 //	                               next complete data item under the harness's DecMode), followed by
 //	OBS ok:<bytes consumed> | OBS err | OBS PANIC
 //
-// Cases the model does not cover are NOT emitted for comparison (they still go through the panic /
-// timeout oracle, and are counted in the distribution as "skip:<reason>"):
-//   - skip:map        the head says map data / map meta / collision group slab (maps are not modelled)
-//   - skip:inlined    a version-1 array data slab whose head has the has-inlined-slabs bit (the shared
-//     inlined-extra-data section is not modelled)
-//   - skip:wrapper    decoding succeeded and the slab contains the harness's wrapper value (tag 165) or
-//     anything else the model's dump grammar has no form for
+//	UMI <hex>                      bytes handed to cbor.Unmarshal(data, &uint64) (what decodeTypeInfoRefIfNeeded
+//	                               does with a type-info reference), followed by OBS ok:<n> | OBS err | OBS PANIC
+//
+// Every slab kind is emitted: array and map data / index slabs, collision-group slabs, large-value
+// slabs, with inlined arrays / maps / compact maps and wrapped values (programs in codecmap.go).
 // Exotic CBOR (indefinite lengths, nesting > 32, maps, floats, simple values, non-minimal heads …) is
 // NOT skipped: the model transcribes the library's well-formedness check in full.
 
@@ -402,26 +402,12 @@ func b01(b bool) string {
 	return "0"
 }
 
-// skipReason says why the model does not cover these bytes ("" = covered).
-func skipReason(data []byte) string {
-	if len(data) < 2 {
-		return ""
-	}
-	b0, b1 := data[0], data[1]
-	switch (b1 & 0x18) >> 3 {
-	case 1:
-		return "map"
-	case 0:
-		if b1&0x07 == 0 && b0>>4 == 1 && b0&0x01 != 0 {
-			return "inlined"
-		}
-	}
-	return ""
-}
+// skipReason says why the model does not cover these bytes ("" = covered; every kind is covered).
+func skipReason(data []byte) string { return "" }
 
+// dumpCovered: the dump grammar has a form for everything in the slab.
 func dumpCovered(dump string) bool {
-	return !strings.Contains(dump, "W(") && !strings.Contains(dump, "?") && !strings.Contains(dump, "nil") &&
-		!strings.Contains(dump, "d(") && !strings.Contains(dump, "m(")
+	return !strings.Contains(dump, "?") && !strings.Contains(dump, "nil")
 }
 
 // emitDEC runs the decoder (always) and writes the DEC/OBS pair unless the case is outside the model.
@@ -509,35 +495,43 @@ func hasRefChild(s atree.Slab) bool {
 	return false
 }
 
-// oracleSlab checks an in-memory slab against its own encoding; it returns the encoding.
-func (e *codecEnv) oracleSlab(s atree.Slab) []byte {
+// oracleSlab checks an in-memory slab against its own encoding; it returns the encoding and the
+// dump of the decoded register.
+func (e *codecEnv) oracleSlab(s atree.Slab) ([]byte, string) {
 	reg, err, pan := guardedEncode(s)
 	if pan != "" || err != nil {
 		e.violation("C07", fmt.Sprintf("EncodeSlab failed on %s: %v %s", atree.VerifDumpSlab(s, hx.Describe), err, pan))
-		return nil
+		return nil, ""
 	}
 	id := s.SlabID()
 	isRoot := atree.VerifSlabIsRoot(s)
+	want := atree.VerifDumpSlab(s, hx.Describe)
 	_, isStorable := s.(*atree.StorableSlab)
-	_, isData := s.(*atree.ArrayDataSlab)
-	_, isMeta := s.(*atree.ArrayMetaDataSlab)
+	_, isAData := s.(*atree.ArrayDataSlab)
+	_, isMData := s.(*atree.MapDataSlab)
+	isData := isAData || isMData
+	anySize := dumpAnySize(want)
 
-	// C06: len(EncodeSlab(s)) == s.ByteSize() + extra-data length − (16 if non-root data slab with undefined next)
-	extra := 0
-	if isRoot {
-		n, err := extraDataLen(reg)
-		if err != nil {
-			e.violation("C07", fmt.Sprintf("extra data of root slab %s does not re-parse: %v", hx.IDStr(id), err))
-		}
-		extra = n
+	// C06: len(EncodeSlab(s)) == s.ByteSize() + extra data + inlined extra data − (16 if non-root data slab
+	// with undefined next); with compact maps (keys and digests hoisted into the shared section): <=
+	extra, ied, compact, err := regSections(reg)
+	if err != nil {
+		e.violation("C07", fmt.Sprintf("extra data sections of slab %s do not re-parse: %v", hx.IDStr(id), err))
+	}
+	if (extra != 0) != isRoot {
+		e.violation("C07", fmt.Sprintf("slab %s: root %v but extra data section of %d bytes", hx.IDStr(id), isRoot, extra))
 	}
 	omitted := 0
 	if isData && !isRoot && atree.VerifSlabNext(s) == atree.SlabIDUndefined {
 		omitted = 16
 	}
-	if len(reg) != int(s.ByteSize())+extra-omitted {
-		e.violation("C06", fmt.Sprintf("slab %s: encoded length %d, ByteSize %d, extra data %d, omitted next %d: %s",
-			hx.IDStr(id), len(reg), s.ByteSize(), extra, omitted, hex.EncodeToString(reg)))
+	law := int(s.ByteSize()) + extra + ied - omitted
+	if (!compact && len(reg) != law) || (compact && len(reg) > law) {
+		e.violation("C06", fmt.Sprintf("slab %s: encoded length %d, ByteSize %d, extra data %d, inlined extra data %d, omitted next %d, compact %v: %s",
+			hx.IDStr(id), len(reg), s.ByteSize(), extra, ied, omitted, compact, hex.EncodeToString(reg)))
+	}
+	if compact {
+		e.st.Hit("c06:compact-shorter")
 	}
 
 	// C07: header flags vs content
@@ -550,14 +544,18 @@ func (e *codecEnv) oracleSlab(s atree.Slab) []byte {
 		}
 		wantPtr := false
 		if isData || isStorable {
-			wantPtr = hasRefChild(s)
+			for _, c := range s.ChildStorables() {
+				if storableHasRef(c) {
+					wantPtr = true
+				}
+			}
 		}
 		// an index slab names its children in its child headers, not as elements: the flag stays clear
-		if h.ptr != wantPtr && (isData || isStorable || isMeta) {
-			e.violation("C07", fmt.Sprintf("slab %s: has-pointers flag %v, content says %v", hx.IDStr(id), h.ptr, wantPtr))
+		if h.ptr != wantPtr {
+			e.violation("C07", fmt.Sprintf("slab %s: has-pointers flag %v, content says %v: %s", hx.IDStr(id), h.ptr, wantPtr, want))
 		}
-		if h.limit != !isStorable {
-			e.violation("C07", fmt.Sprintf("slab %s: size-limit flag %v, storable slab %v", hx.IDStr(id), h.limit, isStorable))
+		if h.limit != !(isStorable || anySize) {
+			e.violation("C07", fmt.Sprintf("slab %s: size-limit flag %v, storable slab %v, any-size %v", hx.IDStr(id), h.limit, isStorable, anySize))
 		}
 	}
 
@@ -565,40 +563,53 @@ func (e *codecEnv) oracleSlab(s atree.Slab) []byte {
 	o := guardedDecode(id, reg)
 	if o.class != "ok" {
 		e.violation("C07", fmt.Sprintf("register of slab %s does not decode (%s %s): %s", hx.IDStr(id), o.class, o.detail, hex.EncodeToString(reg)))
-		return reg
+		return reg, ""
 	}
 	if o.size != s.ByteSize() {
 		e.violation("C06", fmt.Sprintf("slab %s: decoded slab reports size %d, original %d", hx.IDStr(id), o.size, s.ByteSize()))
 	}
-	if want := atree.VerifDumpSlab(s, hx.Describe); o.dump != want {
-		e.violation("C07", fmt.Sprintf("slab %s: decoded %s, original %s", hx.IDStr(id), o.dump, want))
+	if o.dump != want {
+		// the sole exception: same-typed inlined composite maps sharing the compact form may adopt the
+		// shared seed and internal order
+		n1, n2 := normalizeDump(o.dump), normalizeDump(want)
+		if !compact || n1 == "" || n1 != n2 {
+			e.violation("C07", fmt.Sprintf("slab %s: decoded %s, original %s", hx.IDStr(id), o.dump, want))
+		} else {
+			e.st.Hit("c07:compact-exception")
+		}
 	}
 	re, err, pan := guardedEncode(o.slab)
 	if pan != "" || err != nil || !bytes.Equal(re, reg) {
 		e.violation("C07", fmt.Sprintf("slab %s: re-encoding the decoded slab gives %s, register is %s (%v %s)",
 			hx.IDStr(id), hex.EncodeToString(re), hex.EncodeToString(reg), err, pan))
 	}
-	return reg
+	return reg, o.dump
 }
 
-// emitENC writes the ENC line of a slab the model covers, and the DEC / HDR lines of its register.
+// emitSlab writes the ENC line of a slab (its DEC / HDR lines follow when the registers are emitted).
 func (e *codecEnv) emitSlab(s atree.Slab) []byte {
-	reg := e.oracleSlab(s)
+	reg, decDump := e.oracleSlab(s)
 	if reg == nil {
 		return nil
 	}
 	dump := atree.VerifDumpSlab(s, hx.Describe)
-	if !dumpCovered(dump) || skipReason(reg) != "" {
+	if !dumpCovered(dump) {
 		e.st.Hit("skip:enc")
 		return reg
 	}
-	e.w.L("ENC %s %s size=%d", dump, hex.EncodeToString(reg), s.ByteSize())
+	if decDump != "" && decDump != dump {
+		e.w.L("ENC %s size=%d | %s | %s", hex.EncodeToString(reg), s.ByteSize(), dump, decDump)
+	} else {
+		e.w.L("ENC %s size=%d | %s", hex.EncodeToString(reg), s.ByteSize(), dump)
+	}
 	e.nENC++
+	isRoot := atree.VerifSlabIsRoot(s)
+	noNext := atree.VerifSlabNext(s) == atree.SlabIDUndefined
 	switch s.(type) {
 	case *atree.ArrayDataSlab:
-		if atree.VerifSlabIsRoot(s) {
+		if isRoot {
 			e.st.Hit("enc:data-root")
-		} else if atree.VerifSlabNext(s) == atree.SlabIDUndefined {
+		} else if noNext {
 			e.st.Hit("enc:data-last")
 		} else {
 			e.st.Hit("enc:data-next")
@@ -607,13 +618,57 @@ func (e *codecEnv) emitSlab(s atree.Slab) []byte {
 			e.st.Hit("enc:data-with-ref")
 		}
 	case *atree.ArrayMetaDataSlab:
-		if atree.VerifSlabIsRoot(s) {
+		if isRoot {
 			e.st.Hit("enc:meta-root")
 		} else {
 			e.st.Hit("enc:meta-nonroot")
 		}
 	case *atree.StorableSlab:
 		e.st.Hit("enc:storable")
+	case *atree.MapDataSlab:
+		switch {
+		case strings.HasSuffix(dump[:strings.IndexByte(dump, ')')], ",1"):
+			e.st.Hit("enc:map-group")
+		case isRoot:
+			e.st.Hit("enc:map-root")
+		case noNext:
+			e.st.Hit("enc:map-last")
+		default:
+			e.st.Hit("enc:map-next")
+		}
+		if strings.Contains(dump, "I(") {
+			e.st.Hit("enc:map-inline-group")
+		}
+		if strings.Contains(dump, "X(") {
+			e.st.Hit("enc:map-external-ref")
+		}
+		if strings.Contains(dump, "L(") {
+			e.st.Hit("enc:map-single-elements")
+		}
+	case *atree.MapMetaDataSlab:
+		if isRoot {
+			e.st.Hit("enc:mmeta-root")
+		} else {
+			e.st.Hit("enc:mmeta-nonroot")
+		}
+	}
+	if len(reg) >= 2 && reg[0]&0x01 != 0 {
+		e.st.Hit("enc:has-inlined")
+		if bytes.Contains(reg, []byte{0xd8, 0xf6}) {
+			e.st.Hit("enc:typeinfo-ref")
+		}
+		if strings.Contains(dump, ":d(") {
+			e.st.Hit("enc:inlined-map")
+		}
+		if strings.Contains(dump, ":D(") {
+			e.st.Hit("enc:inlined-array")
+		}
+		if _, _, compact, _ := regSections(reg); compact {
+			e.st.Hit("enc:compact")
+		}
+	}
+	if strings.Contains(dump, "W(") {
+		e.st.Hit("enc:wrapper")
 	}
 	return reg
 }
@@ -865,6 +920,55 @@ func codecStream(cfg *Config) *hx.Stats {
 			break
 		}
 	}
+	// map slabs: every digest mode of the map streams (real, colliding at one / several / all levels,
+	// few levels, large colliding elements, the pooled digester with a non-injective hash input, huge digests)
+	mapModes := []int{0, 1, 2, 3, 5, 7, 6, 8, 1, 3}
+	nMap := int(10 * cfg.Scale)
+	if nMap < 8 {
+		nMap = 8
+	}
+	for p := 0; p < nMap && len(st.Violations) <= 20; p++ {
+		e.prog = 100 + p
+		T := []uint32{256, 512, 256, 1024}[p%4]
+		mode := mapModes[p%len(mapModes)]
+		nOps := 150 + rng.Intn(250)
+		if mode == 7 {
+			nOps = 260
+		}
+		if p == 0 {
+			nOps = 900 // a three-level tree: non-root index slabs
+		}
+		e.runMapCodecProgram(rng, T, mode, nOps, true)
+		st.Programs++
+		st.Ops += nOps
+		st.Hit(fmt.Sprintf("map-mode=%d", mode))
+	}
+	// inlined children, wrappers, shared type infos, compact maps
+	nInl := int(12 * cfg.Scale)
+	if nInl < 6 {
+		nInl = 6
+	}
+	for p := 0; p < nInl && len(st.Violations) <= 20; p++ {
+		e.prog = 200 + p
+		T := []uint32{512, 1024, 256, 2048}[p%4]
+		nOps := 30 + rng.Intn(50)
+		e.runInlineProgram(rng, T, nOps, p%2 == 1, true)
+		st.Programs++
+		st.Ops += nOps
+	}
+	// the slabs of the `nested` stream's programs
+	nNest := int(8 * cfg.Scale)
+	if nNest < 4 {
+		nNest = 4
+	}
+	for p := 0; p < nNest && len(st.Violations) <= 20; p++ {
+		e.prog = 300 + p
+		T := []uint32{256, 512, 1024, 256}[p%4]
+		nOps := 20 + rng.Intn(140)
+		e.runNestedHarvest(rng, T, nOps, true)
+		st.Programs++
+		st.Ops += nOps
+	}
 	atree.VerifSetThreshold(1024)
 	st.TraceLines = w.Lines
 	st.Dist["ENC"] = e.nENC
@@ -872,7 +976,10 @@ func codecStream(cfg *Config) *hx.Stats {
 	st.Dist["HDR"] = e.nHDR
 	st.Distinct = e.nENC + e.nDEC
 	st.Samples = append(st.Samples, fmt.Sprintf("programs=%d ENC=%d DEC=%d HDR=%d skipped=%d", st.Programs, e.nENC, e.nDEC, e.nHDR, e.nSkip))
-	for _, tag := range []string{"enc:data-root", "enc:data-next", "enc:data-last", "enc:data-with-ref", "enc:meta-root", "enc:meta-nonroot", "enc:storable", "v0:ok"} {
+	for _, tag := range []string{"enc:data-root", "enc:data-next", "enc:data-last", "enc:data-with-ref", "enc:meta-root", "enc:meta-nonroot", "enc:storable", "v0:ok",
+		"enc:map-root", "enc:map-next", "enc:map-last", "enc:map-group", "enc:map-inline-group", "enc:map-external-ref", "enc:map-single-elements",
+		"enc:mmeta-root", "enc:mmeta-nonroot", "v0map:ok",
+		"enc:has-inlined", "enc:inlined-array", "enc:inlined-map", "enc:compact", "enc:typeinfo-ref", "enc:wrapper"} {
 		if st.Dist[tag] == 0 && st.HarnessErr == "" {
 			st.HarnessErr = "codec stream never produced " + tag
 		}
@@ -894,16 +1001,31 @@ func regKind(reg []byte) string {
 		return "short"
 	}
 	v := fmt.Sprintf("v%d", reg[0]>>4)
+	inl := ""
+	if reg[0]>>4 == 1 && reg[0]&0x01 != 0 {
+		inl = "-inl"
+	}
+	root := ""
+	if reg[1]&0x80 != 0 {
+		root = "-root"
+	}
 	switch (reg[1] & 0x18) >> 3 {
 	case 0:
 		k := "data"
 		if reg[1]&0x07 == 1 {
 			k = "meta"
+			inl = ""
 		}
-		if reg[1]&0x80 != 0 {
-			k += "-root"
+		return v + "-" + k + root + inl
+	case 1:
+		switch reg[1] & 0x07 {
+		case 0:
+			return v + "-mdata" + root + inl
+		case 1:
+			return v + "-mmeta" + root
+		case 3:
+			return v + "-group" + inl
 		}
-		return v + "-" + k
 	case 3:
 		return v + "-storable"
 	}
@@ -932,7 +1054,7 @@ func mutate(rng *rand.Rand, base []byte, pool []baseReg) ([]byte, string) {
 		}
 		return rng.Intn(len(b))
 	}
-	switch k := rng.Intn(11); k {
+	switch k := rng.Intn(13); k {
 	case 0, 1: // bit flip(s)
 		n := 1 + rng.Intn(2)
 		for i := 0; i < n && len(b) > 0; i++ {
@@ -964,7 +1086,7 @@ func mutate(rng *rand.Rand, base []byte, pool []baseReg) ([]byte, string) {
 		var cands []int
 		for i := 2; i < len(b); i++ {
 			switch b[i] {
-			case 0x99, 0x59, 0x58, 0x98, 0x81, 0x50:
+			case 0x99, 0x59, 0x58, 0x98, 0x81, 0x50, 0x83, 0x82, 0x48, 0x40:
 				cands = append(cands, i)
 			}
 		}
@@ -1062,6 +1184,65 @@ func mutate(rng *rand.Rand, base []byte, pool []baseReg) ([]byte, string) {
 			}
 		}
 		return b, "headedit"
+	case 11, 12: // edits of the inlined-slab machinery: extra-data index, extra-data tags, type-info references, counts
+		var cands []int
+		for i := 2; i+1 < len(b); i++ {
+			if b[i] == 0xd8 && b[i+1] >= 246 && b[i+1] <= 254 {
+				cands = append(cands, i)
+			}
+		}
+		if len(cands) == 0 {
+			if len(b) > 0 {
+				b[pos()] ^= 1 << uint(rng.Intn(8))
+			}
+			return b, "inledit"
+		}
+		p := cands[rng.Intn(len(cands))]
+		switch t := b[p+1]; {
+		case t == 246: // type-info reference: what follows is handed to cbor.Unmarshal(&uint64)
+			item := genUMI(rng)
+			if rng.Intn(2) == 0 && p+2 < len(b) {
+				b[p+2] = byte(rng.Intn(8)) // another (maybe out-of-range) index
+				return b, "inledit"
+			}
+			j := p + 2
+			if j < len(b) {
+				j++ // replace the one-byte index
+			}
+			return append(append(append([]byte(nil), b[:p+2]...), item...), b[j:]...), "inledit"
+		case t >= 247 && t <= 249: // extra-data entry: change its kind, its array head, or the count / seed after the type info
+			switch rng.Intn(4) {
+			case 0:
+				b[p+1] = byte(247 + rng.Intn(3))
+			case 1:
+				if p+2 < len(b) {
+					b[p+2] = 0x80 | byte(rng.Intn(5))
+				}
+			default:
+				if p+4 < len(b) {
+					q := p + 3 + rng.Intn(8)
+					if q < len(b) {
+						b[q] = byte(rng.Intn(24)) // a small count where a count / type / seed byte was
+					}
+				}
+			}
+		case t >= 250 && t <= 252: // inlined slab: extra-data index, kind, slab-index head
+			switch rng.Intn(4) {
+			case 0:
+				b[p+1] = byte(250 + rng.Intn(3))
+			case 1, 2:
+				if p+4 < len(b) && b[p+2] == 0x83 && b[p+3] == 0x18 {
+					b[p+4] = byte(rng.Intn(6))
+				}
+			default:
+				if p+5 < len(b) {
+					b[p+5] = []byte{0x47, 0x49, 0x48, 0x40, 0x58}[rng.Intn(5)]
+				}
+			}
+		default: // collision groups
+			b[p+1] = byte(253 + rng.Intn(2))
+		}
+		return b, "inledit"
 	default: // append garbage
 		n := 1 + rng.Intn(4)
 		for i := 0; i < n; i++ {
@@ -1119,6 +1300,41 @@ func malformedStream(cfg *Config) *hx.Stats {
 			}
 		}
 	}
+	addAll := func(regs regSet) {
+		ids := make([]atree.SlabID, 0, len(regs))
+		for id := range regs {
+			ids = append(ids, id)
+		}
+		hx.SortIDs(ids)
+		rng.Shuffle(len(ids), func(i, j int) { ids[i], ids[j] = ids[j], ids[i] })
+		for _, id := range ids {
+			reg := regs[id]
+			if len(reg) > 2000 {
+				continue
+			}
+			add(id, reg)
+			if v0, ok := toV0Map(reg); ok {
+				add(id, v0)
+			}
+		}
+	}
+	for p, mode := range []int{0, 1, 3, 7, 2} {
+		e.prog = 10 + p
+		T := []uint32{256, 256, 512}[p%3]
+		nOps := 150 + rng.Intn(150)
+		if mode == 0 {
+			nOps = 900 // deep enough for non-root index slabs
+		}
+		addAll(e.runMapCodecProgram(rng, T, mode, nOps, false))
+	}
+	for p := 0; p < 6; p++ {
+		e.prog = 20 + p
+		addAll(e.runInlineProgram(rng, []uint32{512, 1024, 256}[p%3], 25+rng.Intn(30), p%2 == 1, false))
+	}
+	for p := 0; p < 3; p++ {
+		e.prog = 30 + p
+		addAll(e.runNestedHarvest(rng, []uint32{256, 512, 1024}[p%3], 40+rng.Intn(80), false))
+	}
 	// small hand-made registers: empty root, single element, single reference, tiny index slab
 	id1 := hx.MkIDn(1, 1)
 	hand := [][]byte{
@@ -1143,7 +1359,9 @@ func malformedStream(cfg *Config) *hx.Stats {
 	for _, b := range pool {
 		st.Hit("base:" + b.kind)
 	}
-	for _, k := range []string{"v1-data-root", "v1-data", "v1-meta-root", "v1-meta", "v1-storable", "v0-data-root", "v0-data", "v0-meta-root", "v0-meta"} {
+	for _, k := range []string{"v1-data-root", "v1-data", "v1-meta-root", "v1-meta", "v1-storable", "v0-data-root", "v0-data", "v0-meta-root", "v0-meta",
+		"v1-mdata-root", "v1-mdata", "v1-mmeta-root", "v1-mmeta", "v1-group", "v0-mdata-root", "v0-mdata", "v0-mmeta-root", "v0-mmeta", "v0-group",
+		"v1-data-root-inl", "v1-mdata-root-inl"} {
 		if st.Dist["base:"+k] == 0 {
 			st.HarnessErr = "malformed stream has no base register of kind " + k
 		}
@@ -1175,9 +1393,7 @@ func malformedStream(cfg *Config) *hx.Stats {
 		}
 		// whatever the decoder accepts must survive re-encoding without panicking
 		if o.class == "ok" {
-			if _, _, pan := guardedEncode(o.slab); pan != "" {
-				e.violation("C19", fmt.Sprintf("EncodeSlab panicked (%s) on the slab decoded from %s", pan, hex.EncodeToString(data)))
-			}
+			e.reencodeAccepted(id, data, o)
 		}
 	}
 
@@ -1262,6 +1478,16 @@ func malformedStream(cfg *Config) *hx.Stats {
 			item = append(item, genCBOR(rng, 3, nil)...) // extraneous data is allowed after the item
 		}
 		e.emitCBR(item)
+	}
+
+	// 7. cbor.Unmarshal into a uint64 (the index of a type-info reference) against the model's
+	nUMI := int(1500 * cfg.Scale)
+	for i := 0; i < nUMI; i++ {
+		item := genUMI(rng)
+		if rng.Intn(12) == 0 && len(item) > 0 {
+			item[rng.Intn(len(item))] ^= 1 << uint(rng.Intn(8))
+		}
+		e.emitUMI(item)
 	}
 
 	st.Programs = len(pool)
